@@ -29,7 +29,9 @@ TCase    == Is("case")    /\ pre' = <<>> /\ last' = None
 TSession == Is("session") /\ pre' = <<>> /\ last' = None
 TWait ==
   /\ Is("wait")
-  /\ ("wait" \in Checks) => WaitInvariant(Ev)
+  \* (a wait INSIDE an argument-reading command - replace mode, find-char... - is not "Vi command mode at rest":
+  \*  only the range invariants apply there)
+  /\ ("wait" \in Checks) => IF pre = <<>> THEN WaitInvariant(Ev) ELSE CursorInBuffer(Ev) /\ SelectionInBuffer(Ev)
   /\ last' = IF pre = <<>> THEN [line |-> Ev.line, set |-> TRUE] ELSE last
   /\ UNCHANGED pre
 TBegin == Is("begin") /\ pre' = Append(pre, Ev) /\ UNCHANGED last
